@@ -24,5 +24,15 @@ let () = run_protocol [
       VV (structured_sched o (fun _ _ -> sc) (gm f) (gz et)) | _ -> failwith "arity");
   "ma_structured", (function [s; f; m; et] -> let sc = sched_of (int_of_nat (gn s)) in
       VV (ma_structured_sched o (fun _ _ -> sc) (gm f) (gzm m) (gz et)) | _ -> failwith "arity");
+  (* hand-written specifications (defining sums / pair enumerations), proved equal to the kernels above *)
+  "spec:summate", (function [a; b; c; d] -> VV (summate_spec o (gm a) (gv b) (gv c) (gm d)) | _ -> failwith "arity");
+  "spec:summate_fourier", (function [sf; a; b; c; d] -> VV (summate_fourier_spec o (gv sf) (gm a) (gv b) (gv c) (gm d)) | _ -> failwith "arity");
+  "spec:calc_field_krige", (function [a; b; c] -> VV (krige_field_spec o (gm a) (gm b) (gv c)) | _ -> failwith "arity");
+  "spec:calc_field_krige_and_variance", (function [a; b; c] -> VT [VV (krige_field_spec o (gm a) (gm b) (gv c)); VV (krige_error_spec o (gm a) (gm b))] | _ -> failwith "arity");
+  "spec:unstructured", (function [f; be; pos; et; dt] -> opt1 (unstructured_spec o (gm f) (gv be) (gm pos) (gz et) (gz dt)) | _ -> failwith "arity");
+  "spec:directional", (function [f; be; pos; dir; at; bw; sep; et] ->
+      opt2 (directional_spec o (gm f) (gv be) (gm pos) (gm dir) (gf at) (gf bw) (gb sep) (gz et)) | _ -> failwith "arity");
+  "spec:structured", (function [f; et] -> VV (structured_spec o (gm f) (gz et)) | _ -> failwith "arity");
+  "spec:ma_structured", (function [f; m; et] -> VV (ma_structured_spec o (gm f) (gzm m) (gz et)) | _ -> failwith "arity");
   "dist_haversine", (function [pos; i; j] -> VF (dist_haversine o (nat_of_int 2) (gm pos) (gn i) (gn j)) | _ -> failwith "arity");
 ]
